@@ -418,6 +418,50 @@ def run_input_delivery(rep, facts):
     rep.floor("R7.9", "async delivery rules", n, 4)
 
 
+def run_own_lock_released(rep, facts):
+    """R7.10: close() takes the transport back with Arc::try_unwrap(self.output).  The request itself may still hold a clone of that Arc inside its
+    lock future (a flush of management replies that returned Pending and was abandoned): unless close() releases `self.lock` first,
+    try_unwrap fails although every StreamWriter is gone -- no epilogue, no EndRequest, the connection is dropped."""
+    rep.rule("R7.10", "on every path of close() to Arc::try_unwrap(self.output) the request's own lock future was released before (drop(self.lock) / lock = None): "
+                      "a flush abandoned while Pending must not keep the writer shared")
+    b = facts.body("async_io::Request::close::{closure#0}", required=False)
+    if b is None:
+        rep.undecidable("R7.10", "close/own-lock-released", "close() has no coroutine body")
+        return
+    g = ieg.IEG(facts, b, inline_filter=lambda x: facts.is_new_helper(x.npath))
+
+    def lock_place(e):
+        e = ir.peel(e)
+        while e[0] in ('ref', 'deref'):
+            e = ir.peel(e[1])
+        return e[0] == 'field' and e[2] == 'lock'
+
+    def effect(n, m, lab):
+        gens = set()
+        t = n.term
+        if t["k"] == "call" and (g.callee(n) or "").endswith("mem::drop") and t["args"] and lock_place(g.arg(n, 0)):
+            gens.add("REL")
+        if t["k"] == "call" and (g.callee(n) or "").endswith("Option::take") and t["args"] and lock_place(g.arg(n, 0)):
+            gens.add("REL")
+        if t["k"] == "drop" and any(el.get("n") == "lock" for el in t.get("place", {}).get("p", [])):
+            gens.add("REL")
+        for st_ in n.stmts:
+            if st_["k"] == "assign" and any(el.get("n") == "lock" for el in st_["place"].get("p", [])) and not any("f" in el and el.get("n") != "lock" for el in st_["place"].get("p", [])):
+                gens.add("REL")     # self.lock = None / a fresh value: the old future (and its Arc) is dropped
+        return gens, set()
+    must = common.must_dataflow(g, frozenset(), effect)
+    n_un = 0
+    for n in g.all_nodes():
+        if n.term["k"] == "call" and (g.callee(n) or "") == "std::sync::Arc::try_unwrap" and n.key in must:
+            n_un += 1
+            if "REL" in must[n.key]:
+                rep.ok("R7.10", "close/own-lock-released", "self.lock is released on every path before Arc::try_unwrap(self.output)", n.loc())
+            else:
+                rep.violation("R7.10", "close/own-lock-released", "Arc::try_unwrap(self.output) can be reached while the request's own lock future is still alive: after an abandoned "
+                              "Pending flush it holds a clone of the Arc, close() fails with \"StreamWriter(s) not dropped\" and no EndRequest is sent", n.loc())
+    rep.floor("R7.10", "try_unwrap sites in close()", n_un, 1)
+
+
 def run_compaction(rep, facts):
     from . import c12
     rep.rule("R7.6", "while draining to a record boundary (and in every in-request read) the buffer is compacted before reading, so a handler that left a large record unread cannot make close() fail for lack of buffer space")
@@ -435,6 +479,7 @@ def main(rep, tier):
     check.guard(rep, "R7.7", run_stream_switch, f)
     check.guard(rep, "R7.8", run_reply_flush, f)
     check.guard(rep, "R7.9", run_input_delivery, f)
+    check.guard(rep, "R7.10", run_own_lock_released, f)
     rep.configs.append({"features": "async,http", "profile": "debug", "bodies": len(f.bodies)})
     check.guard(rep, "R7", run, f)
     import check as _c
